@@ -47,6 +47,32 @@ def hook(interp, name, args, t, body):
         return ('durparts', d)
     if name.startswith('rend::') and seg == 'value' and args:
         return interp.deref_all(args[0])
+    # the word taken apart / put together as bytes: to_be_bytes / to_le_bytes of an n-byte integer, from_be_bytes / from_le_bytes of an array
+    import re as _re
+    m = _re.match(r'core::num::<impl (u8|u16|u32|u64|u128|usize)>::(to|from)_(be|le|ne)_bytes$', name)
+    if m and args:
+        nbytes = {'u8': 1, 'u16': 2, 'u32': 4, 'u64': 8, 'usize': 8, 'u128': 16}[m.group(1)]
+        a0 = interp.deref_all(args[0])
+        if m.group(3) == 'ne' or nbytes > 8:
+            raise Unmodelled('%s is not modelled' % name)
+        if m.group(2) == 'to' and a0 is not None and a0[0] == 'bv':
+            parts = [('bv', tuple(a0[1][8 * i:8 * i + 8]) + (0,) * 56) for i in range(nbytes)]      # little-endian order: byte 0 = least significant
+            if m.group(3) == 'be':
+                parts.reverse()
+            return ('arr', [Cell(p_) for p_ in parts])
+        if m.group(2) == 'from' and a0 is not None and a0[0] == 'arr' and len(a0[1]) == nbytes:
+            bs = []
+            for c in a0[1]:
+                x = interp.deref_all(c.v)
+                if x is not None and x[0] == 'int' and x[1] is not None:
+                    x = absint.bv_const(x[1])
+                if x is None or x[0] != 'bv' or any(b_ != 0 for b_ in x[1][8:]):
+                    raise Unmodelled('from_bytes of something that is not a byte')
+                bs.append(x[1][:8])
+            if m.group(3) == 'be':
+                bs.reverse()
+            bits = tuple(b_ for byte in bs for b_ in byte)
+            return ('bv', bits + (0,) * (64 - len(bits)))
     return None
 
 
